@@ -12,6 +12,27 @@ CHECKS = {
  "C02": ("DESIGN.md 5.2",
   "Theorems (unbounded): the reader mirroring parser.go over a transport delivering ANY list of segments equals the flat reference parser on the concatenation and leaves exactly the unconsumed bytes (C02_next_chunked), exact consumption per value, whole sequences read back followed by clean EOF. Tie: real parser under a scripted segment reader on every 2-way split, 1-byte delivery and random partitions.",
   "io.Reader contract of the transport (>=1 byte unless EOF) is assumed"),
+ "C03": ("DESIGN.md 5.3",
+  "Theorems (unbounded): for every pipeline of canonical values the byte-level connection loop equals the request-level semantics `steps` (parse, execute, write, then next) and never runs out of fuel; each request block has exactly one write (a complete frame) unless it ends in a recovered panic; writes of the connection = replies in request order; reply count; QUIT cuts off everything behind it; handler error => one error frame and the connection stays usable; ZADD flag loop terminates. Tie: real loop (hook H1, scripted net.Conn, handler double) vs model on pipelines x chunkings, incl. replies written at each blocking point.",
+  "the reader-level statement 'no byte beyond the current request is requested before its reply is written' is validated by the tie's blocking-point observable and by C02_exact_consumption, not yet a separate theorem"),
+ "C04": ("DESIGN.md 5.4",
+  "Theorems (unbounded): for every client byte stream, server state and sequence of handler results (every message type, nil message/array/element, errors with arbitrary text) every write is one complete RESP value per an independent grammar predicate `Frame`; hence the reply stream is a concatenation of frames; line replies never carry raw CR/LF; uninterpretable requests get a framed error. Tie: raw reply bytes vs model + independent strict RESP2 reader as oracle.",
+  "handler messages with an unknown MessageType value are not modelled"),
+ "C05": ("DESIGN.md 5.5",
+  "Theorems (unbounded): for all 28 commands of the positional grammar, any letter case, arbitrary byte-string arguments, all 64-bit ints, any accepted float token, lists of any length in order, surplus arguments: exactly one handler call with exactly the decoded arguments and the handler's result as reply (table-wide theorem against an independently written grammar); SET with every admissible option combination in any order and case; kv lists last-wins; unknown command => error, no call. Tie: recording handler double vs model on requests from an independent Go grammar with expected calls.",
+  "EXPIRE/LPOP/SCAN/ZADD/ZRANGE(BYSCORE) option grammars are covered by the tie and by the model definitions, not yet by table-wide theorems; strings.ToUpper outside ASCII and strconv.ParseFloat are parameters"),
+ "C07": ("DESIGN.md 5.7",
+  "Theorems: every trace of a connection, for every input and every handler script, starts with its registration and ends with deregistration and close (panic paths included: a panic is an event contained in the connection); a panicking request writes nothing and changes no server-wide state; user commands cannot change server state; formerly fatal inputs evaluate to error replies. Tie: hostile streams x wild handler results through the hook, oracle = no panic escapes, loop returns, registry empty; regenerated fact: recover barrier present in receive.",
+  "process-level effects (fatal runtime errors that are not panics, OS limits) are not modelled; partial at process level"),
+ "C10": ("DESIGN.md 5.10",
+  "Theorems (unbounded): for all 28 commands of the positional grammar every ill-formed variant (required position omitted, null bulk, non-integer/fractional/overflowing token, non-float, empty list, null in list) is rejected with zero handler calls and unchanged state (table-wide); dangling key/value and score/member halves; SET option conflicts anywhere after any admissible prefix; bad/non-positive/missing expiry; SETEX; ZRANGE fractional index; STRLEN without key. Tie: systematic enumeration of mutation classes through the hook, oracle = no call, error reply, following PING answered.",
+  "option grammars of SCAN/ZRANGEBYSCORE LIMIT are covered by the tie only"),
+ "C11": ("DESIGN.md 5.11",
+  "Theorems (unbounded): every strict prefix (every byte offset) of every request (non-empty array of non-null bulks) parses to an error, never a value, also over any segmentation of the transport; a stream of complete values followed by a partial request yields exactly the trace of the complete values (same calls, same replies, once each); the connection is released. Tie: every byte offset of generated pipelines as end of stream.",
+  "half-close vs full close are the same event (end of stream) for the modelled transport"),
+ "C20": ("DESIGN.md 5.20",
+  "Theorems (unbounded): for every input, server state and handler script, unless the run ends in a recovered panic, the span events of the whole connection satisfy the span discipline (depth machine: one root per request, children only under an open root, FinishSpan pops an open child, root finished once with no child open); every executor including composed ones is balanced on every returning path. Tie: recording tracer double on the library's own span context.",
+  "the go-tracing common span context is used as is; runs ending in a recovered panic leave spans open (C07)"),
  "C06": ("DESIGN.md 5.6",
   "Theorems (unbounded): for every byte sequence in every segmentation the next-value read ends in {value without absent elements, clean EOF, error}; never panic, never out of fuel; progress (>=1 byte per value); declared bulk length above the limit is an error before allocation. Tie: real parser on hostile/mutated/near-valid streams; allocation bombs in an isolated child.",
   "Go runtime allocation behaviour for sizes <= 512MiB+2; stack exhaustion far beyond 1 MiB input not modelled"),
